@@ -668,7 +668,7 @@ pub fn run(ctx: &Ctx) -> i32 {
     });
     let ev = Evidence {
         level: "exploration",
-        rule: "One sim = one key set drawn through the randomness seam and one root position (playouts of the rules model, constructed positions): the game tree to depth 2-3 is walked in parallel on the rules model and on engine boards (engine make_move), which reaches the same positions by many move orders; for 40 seeded tree positions every valid single-component neighbour (each castling right, side to move, ep square set/cleared/moved, one piece moved/removed/recoloured/retyped) and counter variants are added as FEN-built boards; for 3 seeded tree positions every valid one-feature variant (a man added on each empty square or removed, ep square set, right toggled, side flipped) is added too, so that all pairs of them - positions differing in two components - are compared; for one of these bases the XOR structure of the variant hashes is searched for two pairs of features with equal XOR (a linear dependency among keys), each hit being verified on two concrete positions that differ in four components; finally a dozen tree boards are hashed through one engine before and after depth-1 searches of three other roots (state left by a search must not change any hash). Monitor: canonical position (placement, side, rights, ep) <-> hash must be a bijection on everything hashed under that key set. Evaluations = boards hashed; distinct = distinct canonical positions.".into(),
+        rule: "One sim = one key set drawn through the randomness seam and one root position (playouts of the rules model, constructed positions): the game tree to depth 2-3 is walked in parallel on the rules model and on engine boards (engine make_move), which reaches the same positions by many move orders; for 40 seeded tree positions every valid single-component neighbour (each castling right, side to move, ep square set/cleared/moved, one piece moved/removed/recoloured/retyped) and counter variants are added as FEN-built boards; for 3 seeded tree positions every valid one-feature variant (a man added on each empty square or removed, ep square set, right toggled, side flipped) is added too, so that all pairs of them - positions differing in two components - are compared; for one of these bases the XOR structure of the variant hashes is searched for two pairs of features with equal XOR (a linear dependency among keys), each hit being verified on two concrete positions that differ in four components; finally a dozen tree boards are hashed through one engine before and after depth-1 searches of three other roots (state left by a search must not change any hash). Monitor: canonical position (placement, side, rights, ep) <-> hash must be a bijection on everything hashed under that key set. Evaluations = boards hashed; distinct = distinct canonical positions. In the through-an-engine scenario another key table is created in the same simulated process after every other search.".into(),
         extra: serde_json::Map::new(),
         assumptions: vec![
             "weak claim: a monitor over visited positions, not a dedicated search; collision probability of honest 64-bit keys over <=1e5 boards per key set is ~1e-10 and the default seed is fixed".into(),
